@@ -54,7 +54,7 @@ def build(rnd, tier, flags):
             twin = i
     full = "\n".join(texts) + "\n"
     case = {"full": full, "std": std, "reader": r.pick(["string", "file"]), "meta": meta, "missing": missing,
-            "relative_dirs": r.chance(30)}
+            "relative_dirs": r.chance(30), "default_dirs": r.chance(20)}
     if twin is not None:
         meta["same_file_twice"] = True
     if not missing:
@@ -100,7 +100,8 @@ def build(rnd, tier, flags):
                 if inner:
                     k, rg = max(inner, key=lambda x: x[1][1] - x[1][0])
                     done.add(k)
-                    files[names[k]] = "\n".join(" " + ln for ln in render(rg[0], rg[1], level + 1)) + "\n"
+                    # lines start in column one or are indented: the form of an include file is that of its parent
+                    files[names[k]] = "\n".join(ind_ + ln for ln in render(rg[0], rg[1], level + 1)) + "\n"
                     out.append(_inc_line(r, names[k]))
                     i = rg[1]
                 else:
@@ -108,6 +109,7 @@ def build(rnd, tier, flags):
                     i += 1
             return out
         done = set()
+        ind_ = r.pick(["", "", " ", "   "])
         main_lines = render(0, n, 0)
         cross = any(min(depth[a:b]) < depth[a] or depth[b - 1] != depth[a] or
                     any(roles_[i] in ("open", "close", "mid") for i in (a, b - 1)) for a, b in ranges)
@@ -202,6 +204,37 @@ def evaluate(case):
                 labels.append("nested")
             if meta.get("cross"):
                 labels.append("cross-construct")
+            if case.get("default_dirs"):
+                # no include_dirs argument at all: a FortranFileReader searches the directory of its file.  Step 1: the
+                # include files lie next to main.f90 in directory a/ -> the unsplit tree.  Step 2: the same main.f90
+                # alone in directory b/ -> every INCLUDE line of main must stay unresolved (or the parse fails because
+                # the text is no longer a program); nothing may be picked up from a/.
+                labels.append("default-include-path")
+                da, db = os.path.join(wd, "a"), os.path.join(wd, "b")
+                os.makedirs(da)
+                os.makedirs(db)
+                for nm, text in case["files"].items():
+                    with open(os.path.join(da, nm), "w") as fh:
+                        fh.write(text)
+                for d_ in (da, db):
+                    with open(os.path.join(d_, "main.f90"), "w") as fh:
+                        fh.write(case["main"])
+                o = guarded_parse(case["main"], std=std, file_path=os.path.join(da, "main.f90"))
+                if o.kind != "tree":
+                    return Result(False, "default-path:reject:%s" % o.kind, nontrivial, labels, {"error": o.text})
+                d = tree_diff(o_full.tree, o.tree)
+                if d:
+                    return Result(False, "default-path:tree:" + d[0], nontrivial, labels, {"main": case["main"][:1500]})
+                o2 = guarded_parse(case["main"], std=std, file_path=os.path.join(db, "main.f90"))
+                n_inc = sum(1 for ln in case["main"].split("\n") if ln.strip().lower().startswith("include"))
+                if o2.kind == "tree":
+                    got_inc = sum(1 for nd in iter_nodes(o2.tree) if isinstance(nd, F03.Include_Stmt))
+                    if got_inc != n_inc:
+                        return Result(False, "default-path:absent-file-resolved", nontrivial, labels,
+                                      {"include_lines": n_inc, "include_nodes": got_inc})
+                elif o2.kind not in ("syntax", "exit"):      # the torso may be rejected either way (exit: see C06)
+                    return Result(False, "default-path:absent:%s" % o2.kind, nontrivial, labels, {"error": o2.text})
+                return Result(True, None, nontrivial, labels, classes=class_names(o.tree))
             search = [dirs[k] for k in case["dir_order"]]
             for nm, text in case["files"].items():
                 pos = case["place"][nm]
